@@ -73,7 +73,10 @@ def generate(seed, tier, idx=0):
     if rng.random() < 0.2:
         prog["warmup_obs"] = [[rng.randrange(len(stats)), rng.choice([1, 2, 5, 0.5]),
                                rng.choice([0.5, 1, 2])] for _ in range(rng.randint(1, 2))]
-    if case["probe"] and rng.random() < 0.3:
+    if rng.random() < 0.15:
+        prog["init_obs"] = [[rng.randrange(len(stats)), rng.choice([1, 2, 5, 0.5]),
+                             rng.choice([0.5, 1, 2])]]
+    if case["probe"] and rng.random() < 0.3 and not prog.get("init_obs"):
         # a subscriber that changes the statistic from inside notify (batch monitor
         # resetting it, capacity guard registering a correction): what is published
         # afterwards must still equal the query methods at that moment.  Such a
